@@ -18,6 +18,7 @@ import (
 	"os"
 	"path/filepath"
 	"regexp"
+	"runtime"
 	"strconv"
 	"strings"
 	"sync"
@@ -92,6 +93,14 @@ type world struct {
 	keyEvs   []string                               // snapshot of the configured key list at each api.keys.updated
 	keyDirty []bool                                 // ... and whether that list held an already expired key (portbase then schedules a clean-up)
 	onKeyEv  func(idx int, snap string, dirty bool) // optional: runs inside the hook (an admin's change arriving at that moment)
+
+	// import bookkeeping: api.keys.update.returned fires on every return path of an import
+	updOpen  map[uint64]bool // goroutines whose import reached api.keys.updated and has not returned yet
+	abortEvs []string        // setting read at the return of an import that never reached api.keys.updated
+	returned int64           // imports that returned
+	presig   int64           // config changes signalled (each triggers one import)
+	baseRet  int64
+	basePre  int64
 	keySig   chan struct{}
 	keysGet  config.StringArrayOption
 
@@ -117,9 +126,22 @@ type cfgKey struct {
 	Expires time.Time `json:"expires,omitempty"`
 	HasExp  bool      `json:"has_exp,omitempty"`
 	Tag     string    `json:"tag"`
+	Raw     string    `json:"raw,omitempty"`     // written to the setting verbatim (invalid entries)
+	Invalid bool      `json:"invalid,omitempty"` // not a documented entry: grants nothing
+}
+
+// invalid reports whether the entry is not a documented key entry (it grants nothing, and
+// portbase drops it from the setting when it rewrites the setting without expired keys).
+func (k cfgKey) invalid() bool {
+	_, ok1, _ := permFromWord(k.R)
+	_, ok2, _ := permFromWord(k.W)
+	return k.Invalid || !ok1 || !ok2
 }
 
 func (k cfgKey) configString() string {
+	if k.Raw != "" {
+		return k.Raw
+	}
 	q := url.Values{}
 	if k.R != "" {
 		q.Set("read", k.R)
@@ -147,7 +169,7 @@ func freePort() string {
 
 // startWorld starts the module system in this process. logLevel: "trace" ... "critical".
 func startWorld(dir string, b *vlib.Batch, logLevel string) (*world, error) {
-	w := &world{dir: dir, b: b, elog: vlib.NewLog(), byRid: map[string]*obs{}, tokSeen: map[*api.AuthToken]*obs{}, keySig: make(chan struct{}, 1),
+	w := &world{dir: dir, b: b, elog: vlib.NewLog(), byRid: map[string]*obs{}, tokSeen: map[*api.AuthToken]*obs{}, updOpen: map[uint64]bool{}, keySig: make(chan struct{}, 1),
 		panics: make(chan *modules.ModuleError, 256), model: newMWorld()}
 	root := filepath.Join(dir, "dataroot")
 	if err := os.MkdirAll(root, 0o755); err != nil {
@@ -171,7 +193,9 @@ func startWorld(dir string, b *vlib.Batch, logLevel string) (*world, error) {
 			snap = strings.Join(list, "\n")
 			dirty = listHasExpired(list, time.Now())
 		}
+		gid := goid()
 		w.keyEvMu.Lock()
+		w.updOpen[gid] = true
 		w.keyEvs = append(w.keyEvs, snap)
 		w.keyDirty = append(w.keyDirty, dirty)
 		idx := len(w.keyEvs) - 1
@@ -184,6 +208,29 @@ func startWorld(dir string, b *vlib.Batch, logLevel string) (*world, error) {
 		case w.keySig <- struct{}{}:
 		default:
 		}
+	})
+	// every return path of an import, after the key lock was released. An import that
+	// returns without having passed api.keys.updated gave up on the setting it read.
+	vhook.Set("api.keys.update.returned", func(point, subject string) {
+		gid := goid()
+		cur := strings.Join(w.keysGetSafe(), "\n")
+		w.keyEvMu.Lock()
+		w.returned++
+		if w.updOpen[gid] {
+			delete(w.updOpen, gid)
+		} else {
+			w.abortEvs = append(w.abortEvs, cur)
+		}
+		w.keyEvMu.Unlock()
+		select {
+		case w.keySig <- struct{}{}:
+		default:
+		}
+	})
+	vhook.Set("config.set.presignal", func(point, subject string) {
+		w.keyEvMu.Lock()
+		w.presig++
+		w.keyEvMu.Unlock()
 	})
 	modules.SetErrorReportingChannel(w.panics)
 	modules.SetStdErrReporting(false)
@@ -201,6 +248,11 @@ func startWorld(dir string, b *vlib.Batch, logLevel string) (*world, error) {
 		return nil, fmt.Errorf("register noise option: %w", err)
 	}
 	w.handler = api.VerifMainHandler()
+	// baseline of the import bookkeeping: what was signalled/imported during start-up
+	time.Sleep(50 * time.Millisecond)
+	w.keyEvMu.Lock()
+	w.baseRet, w.basePre = w.returned, w.presig
+	w.keyEvMu.Unlock()
 	go w.hangMonitor()
 	w.dbi = database.NewInterface(&database.Options{Local: true, Internal: true})
 	return w, nil
@@ -748,17 +800,53 @@ func listHasExpired(list []string, now time.Time) bool {
 	return false
 }
 
-// awaitKeys waits until an api.keys.updated event at index >= since carries exactly the
-// given configured list. Returns false when the watchdog fires.
+// keyMark is a position in the import bookkeeping, taken before a configuration change.
+type keyMark struct{ upd, abort int }
+
+func (w *world) mark() keyMark {
+	w.keyEvMu.Lock()
+	defer w.keyEvMu.Unlock()
+	return keyMark{len(w.keyEvs), len(w.abortEvs)}
+}
+
+// awaitKeys waits until the import of the given setting is over: an api.keys.updated
+// event at index >= since that carries exactly the wanted list.
+// Returns false when the watchdog fires (which only ever means "inconclusive").
 func (w *world) awaitKeys(since int, want []string) bool {
-	wantS := strings.Join(want, "\n")
+	ok, _ := w.awaitImport(keyMark{since, -1}, want)
+	return ok
+}
+
+// awaitImport is awaitKeys plus the other way an import can be over: it returned without
+// reaching api.keys.updated (api.keys.update.returned without api.keys.updated on the
+// same goroutine). That counts if the import read this setting — the option holds one of
+// the accepted lists at its return, and every import triggered by a configuration change
+// signalled up to now has returned. accept[0] is the list a completed import must carry.
+func (w *world) awaitImport(m keyMark, accept ...[]string) (ok bool, abortedWith string) {
+	var acc []string
+	for _, a := range accept {
+		acc = append(acc, strings.Join(a, "\n"))
+	}
+	w.keyEvMu.Lock()
+	needRet := w.presig - w.basePre // imports that must have returned: one per change signalled so far
+	w.keyEvMu.Unlock()
 	deadline := time.Now().Add(60 * time.Second)
 	for {
 		w.keyEvMu.Lock()
-		for i := since; i < len(w.keyEvs); i++ {
-			if w.keyEvs[i] == wantS {
+		for i := m.upd; i < len(w.keyEvs); i++ {
+			if w.keyEvs[i] == acc[0] {
 				w.keyEvMu.Unlock()
-				return true
+				return true, ""
+			}
+		}
+		if m.abort >= 0 && w.returned-w.baseRet >= needRet {
+			for i := m.abort; i < len(w.abortEvs); i++ {
+				for _, a := range acc {
+					if w.abortEvs[i] == a {
+						w.keyEvMu.Unlock()
+						return true, a
+					}
+				}
 			}
 		}
 		w.keyEvMu.Unlock()
@@ -767,9 +855,21 @@ func (w *world) awaitKeys(since int, want []string) bool {
 		case <-time.After(50 * time.Millisecond):
 		}
 		if time.Now().After(deadline) {
-			return false
+			return false, ""
 		}
 	}
+}
+
+// goid returns the id of the calling goroutine (pairs the two hooks of one import).
+func goid() uint64 {
+	var buf [48]byte
+	n := runtime.Stack(buf[:], false)
+	f := strings.Fields(string(buf[:n]))
+	if len(f) >= 2 {
+		v, _ := strconv.ParseUint(f[1], 10, 64)
+		return v
+	}
+	return 0
 }
 
 // awaitFailed decides what a missed await means: if the option holds neither what the
@@ -820,6 +920,16 @@ func settle(keys []cfgKey, now time.Time) (final []cfgKey, hadExpired, unsure bo
 		}
 		final = append(final, k)
 	}
+	if hadExpired {
+		// the clean-up writes back only the entries that were imported as valid keys
+		var kept []cfgKey
+		for _, k := range final {
+			if !k.invalid() {
+				kept = append(kept, k)
+			}
+		}
+		final = kept
+	}
 	return
 }
 
@@ -834,7 +944,8 @@ func cfgStrings(keys []cfgKey) []string {
 // setKeys configures the API keys and waits until the change (and the clean-up of
 // already expired keys that portbase performs itself) took effect.
 func (w *world) setKeys(keys []cfgKey) error {
-	since := w.keyEvCount()
+	mk := w.mark()
+	since := mk.upd
 	w.elog.Rec("call", "client", "setKeys", map[string]any{"n": len(keys)})
 	if err := w.guarded("SetConfigOption(core/apiKeys)", func() error { return config.SetConfigOption(api.CfgAPIKeys, cfgStrings(keys)) }); err != nil {
 		if isStop(err) {
@@ -846,8 +957,17 @@ func (w *world) setKeys(keys []cfgKey) error {
 	if unsure {
 		return errInconclusive("an API key was within the expiry margin when it was configured")
 	}
-	if !w.awaitKeys(since, cfgStrings(final)) {
+	ok, aborted := w.awaitImport(mk, cfgStrings(final), cfgStrings(keys))
+	if !ok {
 		return w.awaitFailed(since, keys, final, "api.keys.updated with the configured key list")
+	}
+	if aborted != "" {
+		// the import gave up on this setting; it is over nevertheless: from now on the newest
+		// setting decides (what it lists validly grants, everything else grants nothing)
+		w.b.Count("imports_returned_without_update", 1)
+		if aborted == strings.Join(cfgStrings(keys), "\n") {
+			final = keys // no clean-up happened: the option still holds every entry
+		}
 	}
 	w.configured = final
 	w.model.setKeys(final)
@@ -859,7 +979,8 @@ func (w *world) setKeys(keys []cfgKey) error {
 // setDev switches development mode and waits for the config change event to have been
 // processed by the api module (same event, same hook point).
 func (w *world) setDev(on bool) error {
-	since := w.keyEvCount()
+	mk := w.mark()
+	since := mk.upd
 	w.elog.Rec("call", "client", "setDev", map[string]any{"on": on})
 	if err := w.guarded("SetConfigOption(core/devMode)", func() error { return config.SetConfigOption(config.CfgDevModeKey, on) }); err != nil {
 		if isStop(err) {
@@ -871,8 +992,15 @@ func (w *world) setDev(on bool) error {
 	if unsure {
 		return errInconclusive("an API key was within the expiry margin during a config change")
 	}
-	if !w.awaitKeys(since, cfgStrings(final)) {
+	ok, aborted := w.awaitImport(mk, cfgStrings(final), cfgStrings(w.configured))
+	if !ok {
 		return w.awaitFailed(since, w.configured, final, "api.keys.updated after the devMode change")
+	}
+	if aborted != "" {
+		w.b.Count("imports_returned_without_update", 1)
+		if aborted == strings.Join(cfgStrings(w.configured), "\n") {
+			final = w.configured
+		}
 	}
 	w.configured = final
 	w.model.setKeys(final)
